@@ -151,3 +151,34 @@ fn replace__empty_pattern() {
     kani::cover!(which == 2, "cover: ends in a multi-byte character");
     kani::cover!(which == 0, "cover: empty haystack");
 }
+
+// memchr_rs::memchr through its documented contract (the crate dispatches on CPUID, which CBMC cannot execute): the first index >= offset
+// holding the byte, or the length.  The same contract is what the Verus units assume (verus/common.py).
+fn memchr__contract(needle: u8, haystack: &[u8], offset: usize) -> usize {
+    let mut i = offset;
+    while i < haystack.len() {
+        if haystack[i] == needle {
+            return i;
+        }
+        i += 1;
+    }
+    haystack.len()
+}
+
+// StringBuiltin::find answers in CHARACTERS, the unit `len` and `slice` use (the search itself, in bytes, is V:tw: first occurrence);
+// -1 when there is no occurrence.  Concrete table for the same reason as len.
+// @harness property=C13 fn=StringBuiltin::find kind=bounded tier=quick cfg=release timeout=900 domain="bounded: 8 concrete (haystack, needle) pairs with 1-, 2-, 3- and 4-byte characters before the match"
+#[kani::proof]
+#[kani::unwind(40)]
+#[kani::stub(memchr_rs::memchr::memchr, memchr__contract)]
+fn find__answers_in_characters() {
+    assert!(StringBuiltin::find("abc", "c") == 2.0, "post: find == number of characters before the first occurrence");
+    assert!(StringBuiltin::find("h\u{e9}llo", "l") == 2.0, "post: find == number of characters before the first occurrence");
+    assert!(StringBuiltin::find("\u{65e5}\u{672c}\u{8a9e}", "\u{8a9e}") == 2.0, "post: find == number of characters before the first occurrence");
+    assert!(StringBuiltin::find("\u{1F600}x", "x") == 1.0, "post: find == number of characters before the first occurrence");
+    assert!(StringBuiltin::find("a\u{e9}\u{1F600}b", "b") == 3.0, "post: find == number of characters before the first occurrence");
+    assert!(StringBuiltin::find("\u{e9}", "") == 0.0, "post: find == number of characters before the first occurrence");
+    assert!(StringBuiltin::find("abc", "z") == -1.0, "post: -1 when there is no occurrence");
+    assert!(StringBuiltin::find("", "a") == -1.0, "post: -1 when there is no occurrence");
+    kani::cover!(true, "cover: table completed");
+}
